@@ -65,6 +65,21 @@ def analyse(mod, run, label, names=None):
                 run.check(not bad, "B1-operand-immutable", {"fn": fn.name, "iterator_param": fn.argnames.get(k, k)},
                           Finding("B1-operand-written", fn.name, "iterator:%s" % fn.argnames.get(k, k), "write",
                                   "the bitmap captured by the iterator is written at %s" % (bad[0][1] if bad else ""), loc=bad[0][1] if bad else None))
+    def needs_no_array_arm(fn):
+        """the function empties the set by storing the constant 0 into the cardinality: an ARRAY container then needs nothing else (its
+        content is its first `cardinality` values), while RUNS and BITMAP keep private state (numRuns, the bit array) that must go too"""
+        fi_ = w.fi(fn).prepare()
+        for i in fn.insts():
+            if i.op == "store" and i.ops[0]["k"] == "int" and int(i.ops[0]["v"]) == 0 and i["size"] == 4:
+                root, off = fi_.ptr(i.ops[1])
+                if root[0] == "arg" and off.is_const() and card_off is not None and off.c == card_off: return True
+        return False
+    card_off = None
+    for sname, st in mod.structs.items():
+        di = mod.ditypes.get(sname.split(".", 1)[1] if "." in sname else sname)
+        if di and sname.endswith("varintBitmap") or (di and sname.endswith("ctlbm")):
+            for m_ in di["members"]:
+                if m_["name"] == "cardinality": card_off = m_["off"]
     # ---- B2 ----
     nsw = 0
     for fn in sorted(mod.defined(), key=lambda f: f.name):
@@ -77,6 +92,7 @@ def analyse(mod, run, label, names=None):
             nsw += 1
             cases = {int(c["v"]) for c in t["cases"]}
             missing = sorted(n for n, v in en.items() if int(v) not in cases)
+            if missing == ["VARINT_BITMAP_ARRAY"] and needs_no_array_arm(fn): missing = []
             run.check(not missing, "B2-dispatch-exhaustive", {"fn": fn.name, "at": loc(t), "cases": sorted(cases)},
                       Finding("B2-dispatch-not-exhaustive", fn.name, "switch", ",".join(missing),
                               "switch on the container type at %s has no case for %s" % (loc(t), ", ".join(missing)), loc=loc(t)))
@@ -111,6 +127,7 @@ def analyse(mod, run, label, names=None):
                 t = b.term
                 if t.op == "switch" and fn.enum_of_value(t.ops[0]): sw_cases |= {int(c["v"]) for c in t["cases"]}
             missing = sorted(n for n, v in en_all.items() if int(v) not in vals | sw_cases) if en_all else []
+            if missing == ["VARINT_BITMAP_ARRAY"] and needs_no_array_arm(fn): missing = []
             nsw += 1
             run.check(not missing, "B2-dispatch-exhaustive", {"fn": fn.name, "if_chain_on_type": sorted(vals)},
                       Finding("B2-dispatch-not-exhaustive", fn.name, "if-chain", ",".join(missing),
@@ -241,12 +258,17 @@ def analyse(mod, run, label, names=None):
                 for g in mod.defined():
                     for c in g.calls(fn.name):
                         sites.append((g, c))
-                def site_ok(g, c):
+                def site_ok(g, c, k_, d=0):
                     ga = eng.fa.get(g.name) or alloc.FnAlloc(g, eng)
-                    r, off = ga.fi.ptr(c.ops[L[0][1]])
+                    r, off = ga.fi.ptr(c.ops[k_])
                     if r[0] == "arg" and r[1] in dt.get(g.name, set()): return True
-                    return emptiness_guarded(g, ga, c, r)
-                ok = bool(sites) and all(site_ok(g, c) for g, c in sites)
+                    if emptiness_guarded(g, ga, c, r): return True
+                    # the caller is itself a file-local helper that was handed the object: the question moves on to its callers
+                    if g.internal and r[0] == "arg" and d < 3:
+                        up = [(g2, c2) for g2 in mod.defined() for c2 in g2.calls(g.name)]
+                        return bool(up) and all(site_ok(g2, c2, r[1], d + 1) for g2, c2 in up)
+                    return False
+                ok = bool(sites) and all(site_ok(g, c, L[0][1]) for g, c in sites)
             run.check(ok, "B3-container-read-before-free", {"fn": fn.name, "at": loc(fr), "read_before": has},
                       Finding("B3-live-container-discarded", fn.name, "param%d+%d" % (L[0][1], L[1]), "free",
                               "the live container is freed at %s without its contents having been read and without a dominating emptiness test: existing elements are discarded" % loc(fr), loc=loc(fr)))
